@@ -1,8 +1,139 @@
-import OmplModel.Model.Heap
-/-! C11 property theorems (filled in below). -/
+import OmplModel.Proofs.Heap
+/-!
+# C11 — the updatable heap always pops in order, whatever was removed or updated
+
+Property theorems about the model `OmplModel.Heap` of `ompl::BinaryHeap` (BinaryHeap.h), for
+**every** finite sequence of operations (`Op`: insert, insert(vector), remove(handle),
+key change + update(handle), pop, key changes + rebuild, buildFrom, sort, clear), every key type
+and every comparison functor that is a strict weak order (`SWO`: asymmetric, negatively
+transitive — C++'s own requirement on `LessThan`).  Helper lemmas live in `Proofs/Heap.lean`.
+All theorems are arithmetic-free: they hold for whatever the key type is.
+-/
 namespace OmplModel.Props.C11
 open OmplModel.Heap
 
-theorem clear_empty {κ} (s : Heap κ) : s.clear.arr.size = 0 := rfl
+variable {κ : Type}
+
+/-- States reachable from the empty heap by any operation sequence. -/
+def reach (lt : κ → κ → Bool) (ops : List (Op κ)) : Heap κ := (Heap.empty : Heap κ).run lt ops
+
+/-- **Heap order is an invariant of every operation sequence**: no element is smaller than its
+parent (`InvFrom _ _ 0`), handles are pairwise distinct and were all handed out (`Wf`). -/
+theorem reachable_inv {lt : κ → κ → Bool} (h : SWO lt) (ops : List (Op κ)) :
+    HeapInv lt (reach lt ops).arr ∧ Wf (reach lt ops) :=
+  ⟨run_inv h ops _ (by intro c hc; exact absurd hc (Nat.not_lt_zero _)), run_wf lt ops _ empty_wf⟩
+
+/-- **The top is a minimum of the current contents** after any operation sequence. -/
+theorem top_is_min {lt : κ → κ → Bool} (h : SWO lt) (ops : List (Op κ)) (t : Elem κ)
+    (ht : (reach lt ops).top = some t) :
+    ∀ x ∈ (reach lt ops).arr.toList, lt x.key t.key = false := by
+  intro x hx
+  have H := (reachable_inv h ops).1
+  obtain ⟨i, hi, rfl⟩ := List.getElem_of_mem hx
+  simp only [Array.length_toList] at hi
+  have h0 : 0 < (reach lt ops).arr.size := by omega
+  have : t = (reach lt ops).arr[0] := by
+    unfold Heap.top at ht
+    rw [Array.getElem?_eq_getElem h0] at ht
+    exact (Option.some.inj ht).symm
+  subst this
+  simpa using top_min h _ H i hi
+
+/-- **Popping repeatedly yields all remaining elements in non-decreasing order**: draining any
+reachable heap gives a permutation of its contents with no inversion. -/
+theorem popAll_sorted_perm {lt : κ → κ → Bool} (h : SWO lt) (ops : List (Op κ)) :
+    let a := (reach lt ops).arr
+    (drain lt a.size a).Perm a.toList ∧ Sorted lt (drain lt a.size a) :=
+  ⟨drain_perm lt _ _ rfl, drain_sorted h _ _ rfl (reachable_inv h ops).1⟩
+
+/-- `pop` removes exactly one element, and that element is a minimum. -/
+theorem pop_removes_a_minimum {lt : κ → κ → Bool} (h : SWO lt) (ops : List (Op κ))
+    (hne : 0 < (reach lt ops).arr.size) :
+    ∃ e ∈ (reach lt ops).arr.toList, (∀ x ∈ (reach lt ops).arr.toList, lt x.key e.key = false) ∧
+      (e :: ((reach lt ops).pop lt).arr.toList).Perm (reach lt ops).arr.toList :=
+  pop_spec h _ (reachable_inv h ops).1 hne
+
+/-- `insert` adds exactly the new element under a fresh handle. -/
+theorem insert_adds (lt : κ → κ → Bool) (s : Heap κ) (k : κ) :
+    (s.insert lt k).arr.toList.Perm (⟨s.next, k⟩ :: s.arr.toList) := insert_perm lt s k
+
+/-- **Handles keep identifying their own element**: `remove(handle)` of a live handle deletes
+exactly the element carrying that handle and nothing else; afterwards the handle is dead. -/
+theorem remove_live_handle {lt : κ → κ → Bool} (h : SWO lt) (ops : List (Op κ)) (hd : Nat)
+    (hlive : ∃ e ∈ (reach lt ops).arr.toList, e.h = hd) :
+    ∃ e, e.h = hd ∧ (e :: ((reach lt ops).remove lt hd).arr.toList).Perm (reach lt ops).arr.toList ∧
+      ∀ x ∈ ((reach lt ops).remove lt hd).arr.toList, x.h ≠ hd :=
+  remove_spec_live lt _ hd (reachable_inv h ops).2 hlive
+
+/-- a dead handle changes nothing (the model's totalisation; the C++ API forbids the call) -/
+theorem remove_dead_handle (lt : κ → κ → Bool) (s : Heap κ) (hd : Nat)
+    (hdead : ∀ e ∈ s.arr.toList, e.h ≠ hd) : s.remove lt hd = s := remove_spec_dead lt s hd hdead
+
+/-- **In-place key update**: changing the key behind a live handle and calling `update` changes
+that element's key and nothing else (and by `reachable_inv` the heap order is restored). -/
+theorem update_changes_only_that_key {lt : κ → κ → Bool} (h : SWO lt) (ops : List (Op κ)) (hd : Nat) (k : κ)
+    (hlive : ∃ e ∈ (reach lt ops).arr.toList, e.h = hd) :
+    ((reach lt ops).setKey lt hd k).arr.toList.Perm
+      ((reach lt ops).arr.toList.map (fun e => if e.h = hd then ⟨hd, k⟩ else e)) :=
+  setKey_spec_live lt _ hd k (reachable_inv h ops).2 hlive
+
+/-- a live handle names exactly one array slot -/
+theorem handle_names_one_element {lt : κ → κ → Bool} (h : SWO lt) (ops : List (Op κ)) (i j : Nat)
+    (hi : i < (reach lt ops).arr.size) (hj : j < (reach lt ops).arr.size)
+    (he : (reach lt ops).arr[i].h = (reach lt ops).arr[j].h) : i = j :=
+  handle_unique (reachable_inv h ops).2 i j hi hj he
+
+/-- `rebuild()` after arbitrary key changes, and `buildFrom`, establish the heap order from *any*
+array and keep its contents. -/
+theorem build_establishes {lt : κ → κ → Bool} (h : SWO lt) (a : Array (Elem κ)) :
+    HeapInv lt (build lt a) ∧ (build lt a).Perm a := ⟨build_inv h a, build_perm lt a⟩
+
+/-- **`sort`** returns a sorted permutation of its argument and leaves the heap untouched. -/
+theorem sort_correct {lt : κ → κ → Bool} (h : SWO lt) (s : Heap κ) (ks : List κ) :
+    (s.sort lt ks).Perm ks ∧ (s.sort lt ks).Pairwise (fun x y => lt y x = false) ∧
+      s.step lt (.sort ks) = s :=
+  ⟨sort_perm lt s ks, sort_sorted h s ks, rfl⟩
+
+/-! ## The defect repaired by the `fix:` commit (F1)
+
+`removePosOld` is `removePos` as it was before the fix (sift down only).  On a 7-element heap it
+leaves a child smaller than its parent; with the repaired code the invariant is preserved
+(`reachable_inv`). -/
+
+def ltNat : Nat → Nat → Bool := fun a b => decide (a < b)
+
+theorem ltNat_swo : SWO ltNat :=
+  ⟨by intro a b h; simp [ltNat] at *; omega, by intro a b c h1 h2; simp [ltNat] at *; omega⟩
+
+def f1Heap : Array (Elem Nat) := #[⟨0, 1⟩, ⟨1, 10⟩, ⟨2, 2⟩, ⟨3, 11⟩, ⟨4, 12⟩, ⟨5, 3⟩, ⟨6, 4⟩]
+
+/-- the array order before the removal is a heap … -/
+theorem f1Heap_ok : ∀ c : Fin 7, 0 < c.val →
+    ltNat (f1Heap[c.val]'(by have := c.isLt; simp [f1Heap])).key
+      (f1Heap[(c.val - 1) / 2]'(by have := c.isLt; simp [f1Heap]; omega)).key = false := by decide
+
+/-- … and after `removePosOld` of slot 3 (key 11) slot 3 holds key 4 under its parent 10. -/
+theorem removePosOld_breaks :
+    ((removePosOld ltNat f1Heap 3).toList.map (·.key)) = [1, 10, 2, 4, 12, 3] ∧
+    ((removePos ltNat f1Heap 3).toList.map (·.key)) = [1, 4, 2, 10, 12, 3] := by
+  constructor
+  · simp [removePosOld, f1Heap, siftDown]
+  · simp [removePos, f1Heap, siftDown, siftUp, ltNat]
+
+/-! ## Non-vacuity -/
+
+example : SWO ltNat := ltNat_swo
+/-- a reachable three-element heap with a live handle 1 (premises of the theorems above are
+satisfiable by a non-trivial state) -/
+theorem nonvacuous_state :
+    (reach ltNat [.insert 5, .insert 3, .insert 9]).arr.toList.map (fun e => (e.h, e.key)) = [(1, 3), (0, 5), (2, 9)] := by
+  simp [reach, Heap.run, Heap.step, Heap.insert, Heap.empty, siftUp, ltNat]
+
+example : ∃ e ∈ (reach ltNat [.insert 5, .insert 3, .insert 9]).arr.toList, e.h = 1 := by
+  have h := nonvacuous_state
+  have hm : (1, 3) ∈ (reach ltNat [.insert 5, .insert 3, .insert 9]).arr.toList.map (fun e => (e.h, e.key)) := by
+    rw [h]; simp
+  obtain ⟨e, he, heq⟩ := List.mem_map.mp hm
+  exact ⟨e, he, by simpa using congrArg Prod.fst heq⟩
 
 end OmplModel.Props.C11
